@@ -84,11 +84,44 @@ def payload_key(payload):
     return (getattr(payload, "__module__", "?"), getattr(payload, "__qualname__", repr(payload)))
 
 
-def tag_of(payload):
-    """Gallina term of the payload tag of a payload function."""
+_ALL = frozenset(KINDS)
+_SETS = {"NUM": frozenset(["KInt", "KFloat"]), "STR": frozenset(["KStr"]), "INT": frozenset(["KInt"]),
+         "SEQ": frozenset(["KList", "KTuple"]), "NULL": frozenset(["KNull"]),
+         "NONNULL": _ALL - frozenset(["KNull"]), "ANY": _ALL}
+_ROLES = {
+    ("#operator_+", ("NUM", "NUM")): "PNumAdd", ("#operator_+", ("STR", "STR")): "PStrConcat",
+    ("#operator_-", ("NUM", "NUM")): "PNumSub", ("#operator_*", ("NUM", "NUM")): "PNumMul",
+    ("#operator_*", ("STR", "INT")): "PStrRep", ("#operator_*", ("INT", "STR")): "PRepStr",
+    ("#operator_*", ("SEQ", "INT")): "PSeqRep", ("#operator_*", ("INT", "SEQ")): "PRepSeq",
+    ("#operator_/", ("NUM", "NUM")): "PNumDiv", ("#operator_mod", ("NUM", "NUM")): "PNumMod",
+    ("#operator_in", ("STR", "STR")): "PStrIn", ("*equal", ("ANY", "ANY")): "PEq", ("*not_equal", ("ANY", "ANY")): "PNeq",
+    ("#unary_operator_+", ("NUM",)): "PNumPos", ("#unary_operator_-", ("NUM",)): "PNumNeg",
+    ("#unary_operator_not", ("ANY",)): "PNot",
+}
+for _sp, _c in (("<", "CLt"), ("<=", "CLe"), (">", "CGt"), (">=", "CGe")):
+    _ROLES[("#operator_" + _sp, ("NUM", "NUM"))] = "(PNumCmp %s)" % _c
+    _ROLES[("#operator_" + _sp, ("STR", "STR"))] = "(PStrCmp %s)" % _c
+    _ROLES[("#operator_" + _sp, ("NONNULL", "NULL"))] = "(PLeftNull %s)" % _c
+    _ROLES[("#operator_" + _sp, ("NULL", "NONNULL"))] = "(PNullRight %s)" % _c
+    _ROLES[("#operator_" + _sp, ("NULL", "NULL"))] = "(PNullNull %s)" % _c
+
+
+def tag_of(payload, opname=None, rows=None):
+    """Gallina term of the payload tag of an overload: by the payload function's module and
+    qualified name; a function the map does not know (renamed, moved) is recognised by its
+    role - the operator it is registered under and the exact kinds its parameters accept;
+    anything else is POther n (dispatch only)."""
     key = payload_key(payload)
     if key in _TAGS:
         return _TAGS[key]
+    if opname is not None and rows:
+        sig = []
+        for row in rows:
+            acc = frozenset(k for k, ok in zip(KINDS, row) if ok)
+            sig.append(next((n for n, s in _SETS.items() if s == acc), None))
+        role = _ROLES.get((opname, tuple(sig)))
+        if role is not None:
+            return role
     if key not in _other:
         _other[key] = len(_other)
     return "(POther %d)" % _other[key]
@@ -137,7 +170,7 @@ def describe(context, engine, name, arity):
         lay = []
         for fd in layer:
             mapping = fd.map_args(args, {}, context, engine)
-            d = {"id": n, "fd": fd, "tag": tag_of(fd.payload), "key": payload_key(fd.payload),
+            d = {"id": n, "fd": fd, "tag": None, "key": payload_key(fd.payload),
                  "maps": mapping is not None, "nokw": bool(fd.no_kwargs), "lazy": [], "rows": []}
             if mapping is not None:
                 pos, kwd = mapping
@@ -154,6 +187,7 @@ def describe(context, engine, name, arity):
                                 "parameter %r of %r does not treat all %s representatives alike" % (p.name, d["key"], k))
                         row.append(answers.pop())
                     d["rows"].append(row)
+            d["tag"] = tag_of(fd.payload, name, d["rows"])
             lay.append(d)
             n += 1
         out.append(lay)
